@@ -166,6 +166,11 @@ class C18(Prop):
             for bad in range(n):
                 for cache in (True, False):
                     yield Case('dump_fail', (n, bs, bad, cache))
+        # fromdicts(<generator>) with a generator that raises midway
+        for n in (1, 3, 5):
+            for fail in range(0, n):
+                for with_header in (True, False):
+                    yield Case('df_fail', (n, fail, with_header, rng.choice([1, 2])))
         names = [e['name'] for e in catalogue.entries() if 'sorted' in e['flags']]
         reps = 1 if tier == 'quick' else 5
         for nm in names:
@@ -180,8 +185,8 @@ class C18(Prop):
             return Case('df_run', tuple((o, l) for o, l in zip(ops, lasts)), dict(case.meta, orig=[n, [list(o) for o in ops]]))
         if case.op == 'op_leak':
             return Case('const_true', case.arg, dict(case.meta, orig='op_leak'))
-        if case.op == 'dump_fail':
-            return Case('const_true', ('dump_fail',) + tuple(case.arg), dict(case.meta, orig='dump_fail'))
+        if case.op in ('dump_fail', 'df_fail'):
+            return Case('const_true', (case.op,) + tuple(case.arg), dict(case.meta, orig=case.op))
         return case
 
     # ---- implementation -------------------------------------------------------------------------------------------------
@@ -204,6 +209,8 @@ class C18(Prop):
             if case.op == 'const_true':
                 if case.arg[0] == 'dump_fail':
                     return codec.t_bool(self._dump_fail(*case.arg[1:]))
+                if case.arg[0] == 'df_fail':
+                    return codec.t_bool(self._df_fail(*case.arg[1:]))
                 return codec.t_bool(self._op_leak(*case.arg))
         except Exception as e:   # noqa
             return obs_exc(e)
@@ -310,6 +317,40 @@ class C18(Prop):
         self._df_ok[(n, ops)] = ok
         return files, lasts, released
 
+    def _df_fail(self, n, fail, with_header, passes):
+        """fromdicts(<generator>) whose generator raises at record `fail`: after everything is released the spill file is gone,
+        and the rows read before the failure were the right ones"""
+        import petl as etl
+        rows = [(n - i, 'r%d' % i) for i in range(n)]
+
+        def gen():
+            for i, r in enumerate(rows):
+                if i == fail:
+                    raise SrcError('record %d' % i)
+                yield {'k': r[0], 'v': r[1]}
+        old = tempfile.tempdir
+        with tempfile.TemporaryDirectory(dir='/var/tmp') as td:
+            tempfile.tempdir = td
+            try:
+                ok = True
+                try:
+                    view = etl.fromdicts(gen(), header=['k', 'v']) if with_header else etl.fromdicts(gen())
+                except SrcError:
+                    view = None      # without a header the sample is drawn at construction
+                for _ in range(passes if view is not None else 0):
+                    got = []
+                    try:
+                        for r in view:
+                            got.append(tuple(r))
+                    except SrcError:
+                        pass
+                    ok = ok and got[1:] == rows[:len(got) - 1] and len(got) - 1 <= max(fail, 0) if got else ok
+                view = None
+                gc.collect()
+                return ok and len(os.listdir(td)) == 0
+            finally:
+                tempfile.tempdir = old
+
     def _dump_fail(self, n, bs, bad, cache):
         import petl as etl
         with tempfile.TemporaryDirectory(dir='/var/tmp') as td:
@@ -414,10 +455,13 @@ class C18(Prop):
                 ops = tuple(tuple(o) for o in ops)
                 lasts = self._df_impl(n, ops)[1]
                 return case.tree == Case('df_run', tuple((o, l) for o, l in zip(ops, lasts))).tree
-            if case.op in ('df_hist', 'op_leak', 'dump_fail'):
+            if case.op in ('df_hist', 'op_leak', 'dump_fail', 'df_fail'):
                 return True
             if case.op == 'const_true':
                 nm = case.arg[0]
+                if nm == 'df_fail':
+                    n, fail, wh, passes = case.arg[1:]
+                    return isinstance(n, int) and 0 <= fail < n <= 50 and isinstance(wh, bool) and passes in (1, 2)
                 if nm == 'dump_fail':
                     n, bs, bad, cache = case.arg[1:]
                     return isinstance(n, int) and 0 <= bad < n <= 50 and isinstance(bs, int) and bs >= 1
